@@ -58,10 +58,52 @@ class Scratch:
         os.makedirs(d)
         return d
 
+    def mount_tmpfs(self, dirs):
+        """Mounts a fresh tmpfs on each of the (existing) directories, inside a mount namespace private to this
+        process, so that nothing leaks even if the process dies. Returns False where that is not permitted."""
+        if not _private_mount_ns():
+            return False
+        done = []
+        for d in dirs:
+            if _libc().mount(b"tmpfs", fse(d), b"tmpfs", 0, b"size=256m") != 0:
+                for x in done:
+                    _libc().umount2(fse(x), 2)
+                return False
+            done.append(d)
+        self.mounts = getattr(self, "mounts", []) + done
+        return True
+
     def cleanup(self):
+        for m in reversed(getattr(self, "mounts", [])):
+            _libc().umount2(fse(m), 2)  # MNT_DETACH
+        self.mounts = []
         for r in self.roots.values():
             rmtree(r)
         self.roots = {}
+
+
+_LIBC = None
+_PRIVATE_NS = None
+
+
+def _libc():
+    global _LIBC
+    if _LIBC is None:
+        import ctypes
+        _LIBC = ctypes.CDLL(None, use_errno=True)
+    return _LIBC
+
+
+def _private_mount_ns():
+    """unshare(CLONE_NEWNS) + make everything private, once per process."""
+    global _PRIVATE_NS
+    if _PRIVATE_NS is None:
+        try:
+            ok = _libc().unshare(0x00020000) == 0 and _libc().mount(b"none", b"/", None, 16384 | (1 << 18), None) == 0
+        except Exception:
+            ok = False
+        _PRIVATE_NS = ok
+    return _PRIVATE_NS
 
 
 def rmtree(path):
